@@ -295,24 +295,43 @@ func concScenario(name string, iters int, seed uint64) string {
 		return "API: " + p.(string)
 	}
 	// quiescence, then tree consistency: parent/children and registry agree; nothing half-dead remains
-	deadline := time.Now().Add(5 * time.Second)
+	// (the clock only runs while nothing changes, and it is read after the tree has been inspected: on a race build
+	// with tens of thousands of registered actors one inspection takes seconds, and a system that is still draining
+	// its backlog shows transient states — e.g. marked killed, not yet deregistered — that are no problem at all.
+	// A problem is reported when the registry has not changed over two inspections at least 5 s apart; 90 s overall)
+	hard := time.Now().Add(90 * time.Second)
 	var last string
-	for time.Now().Before(deadline) {
+	prevN := -1
+	var quietSince time.Time
+	for {
+		paths, _ := sys.VerifRegistered()
 		last = treeProblem(sys)
+		now := time.Now()
+		if len(paths) != prevN {
+			prevN = len(paths)
+			quietSince = now
+		}
 		if last == "" && name != "spawn-die" && name != "spawn-fail" && name != "es" && name != "ask-die" {
 			break
 		}
 		if last == "" {
 			// these scenarios end with every spawned actor dead: wait for that
-			paths, _ := sys.VerifRegistered()
 			if len(paths) <= builtinActors(sys) {
 				break
 			}
 			last = fmt.Sprintf("LEAK: %d actors still registered although every spawned actor asked to terminate", len(paths)-builtinActors(sys))
 		}
+		if now.Sub(quietSince) > 5*time.Second || now.After(hard) {
+			break
+		}
 		time.Sleep(20 * time.Millisecond)
 	}
 	if last != "" {
+		if os.Getenv("VERIF_CONC_DUMP") != "" {
+			buf := make([]byte, 64<<20)
+			n := runtime.Stack(buf, true)
+			os.WriteFile(os.Getenv("VERIF_CONC_DUMP"), buf[:n], 0o644)
+		}
 		return "TREE: " + name + ": " + last
 	}
 	done := make(chan error, 1)
@@ -359,7 +378,7 @@ func treeProblem(sys *actor.System) string {
 		}
 		st := c.VerifState()
 		if st.State == 2 {
-			return fmt.Sprintf("%s is registered but terminated", p)
+			return fmt.Sprintf("%s is registered but terminated (zombie=%v restarting=%v children=%v)", p, st.Zombie, st.Restarting, st.Children)
 		}
 		for _, ch := range st.Children {
 			if !reg[ch] {
@@ -461,10 +480,10 @@ func (e *concEngine) Exec(line string) (string, string) {
 		go func() { out, err = cmd.CombinedOutput(); close(done) }()
 		select {
 		case <-done:
-		case <-time.After(120 * time.Second):
+		case <-time.After(300 * time.Second):
 			cmd.Process.Kill()
 			<-done
-			return "-", fmt.Sprintf("HANG: scenario %s did not finish in 120 s", tk[1])
+			return "-", fmt.Sprintf("HANG: scenario %s did not finish in 300 s", tk[1])
 		}
 		var viol []string
 		if err != nil {
